@@ -234,7 +234,7 @@ class Ctx:
         # the Properties file must contain nothing but theorems closed by `exact`
         ptxt = re.sub(r'\(\*.*?\*\)', '', open(os.path.join(d, properties_file)).read(), flags=re.S)
         for m in re.finditer(r'Proof\.(.*?)Qed\.', ptxt, flags=re.S):
-            if not re.fullmatch(r'\s*exact\s+[^.]*(\.[A-Za-z_][\w\'.]*)*\s*\.\s*', m.group(1)):
+            if not re.fullmatch(r"\s*exact\s+[A-Za-z_][\w']*(\.[A-Za-z_][\w']*)*\s*\.\s*", m.group(1)):   # literally `exact <qualified.lemma>.`
                 ok = False; det.append('Properties proof is not a single `exact`: ' + m.group(1).strip()[:80])
         if self.tier == 'thorough' and ok and os.environ.get('VERIF_COQCHK', '1') == '1':
             mod = properties_file[:-2]
